@@ -161,6 +161,9 @@ func runCheck(repo, prop, tier string, rest []string) int {
 	for _, k := range keys {
 		ctr := e.ctrs[k]
 		fn := e.funcs[k]
+		if fn == nil && strings.Contains(k, ".*.") {
+			continue // contract of an interface method: used at invoke sites and checked on every implementation
+		}
 		if fn == nil {
 			// the function the contract speaks about no longer exists (renamed / removed / closure restructured):
 			// the clause cannot be discharged; reported as an undischarged obligation, not as a pass
